@@ -245,6 +245,34 @@ def explore(chk):
         got, bal = flags_of_markup(cue, lambda d: set())
         if not bal or got != want:
             chk.property_failure(dict(case, cue=cue[:400], parsed=str(got)[:400]), "webvtt writer: a span styled by a class is not wrapped in the i/b/u tags its class asks for in this caption set")
+        # the same span through the SAMI writer and reader: the class (and what it stands for) has to come back.  Only the
+        # single-class form: a list of classes is a DFXP/WebVTT notion the SAMI writer has no rendering for (counted, not judged)
+        if "classes" in content:
+            chk.count("class_list_spans_not_judged_for_sami"); continue
+        try:
+            rs = core.POOL.get(pycaption.SAMIReader).read(core.POOL.get(pycaption.SAMIWriter).write(cs))
+            rcap = rs.get_captions(rs.get_languages()[0])[0]
+            def resolved(content):
+                st = set()
+                cls = list(content.get("classes") or ([content["class"]] if content.get("class") else []))
+                for src in [rs.get_style(c_) or {} for c_ in cls] + [content]:
+                    for x, key in (("i", "italics"), ("b", "bold"), ("u", "underline")):
+                        if src.get(key):
+                            st.add(x)
+                return frozenset(st)
+            got2 = []; stack = []
+            for n in rcap.nodes:
+                if n.type_ == CaptionNode.TEXT:
+                    act = frozenset(x for s_ in stack for x in s_)
+                    got2 += [(ch, act) for ch in n.content if not ch.isspace()]
+                elif n.type_ == CaptionNode.STYLE:
+                    if n.start: stack.append(resolved(n.content or {}))
+                    elif stack: stack.pop()
+            if got2 != want:
+                chk.property_failure(dict(case, chain="sami->sami", read_nodes=str(capio.obs_nodes(rcap.nodes))[:400], parsed=str(got2)[:300]),
+                                     "sami -> sami: the characters a class marks italic / bold / underline changed")
+        except Exception as e:
+            chk.property_failure(dict(case, error=repr(e)[:300]), "SAMI write / read raised on a span styled by a class")
     # ---- spans that carry attributes of their own next to the style (alignment, colour, font): italic / bold / underline
     #      must survive whatever else the span says
     from pycaption.geometry import Layout, Point, Size, UnitEnum
